@@ -31,7 +31,7 @@ t0 = time.time()
 c = sh("sh %s/tools/mut_run.sh %s %s" % (V, pid, patch), timeout=7200)
 viol = [l for l in c.stdout.split("\n") if l.startswith("VIOLATION")]
 print("check: rc=%d, %d VIOLATION lines" % (c.returncode, len(viol)))
-dst = os.path.join(V, "seeded", name)
+dst = os.path.join(os.environ.get("SEED_DST", os.path.join(V, "seeded")), name)
 os.makedirs(dst, exist_ok=True)
 for f in os.listdir(src):
     if os.path.isfile(os.path.join(src, f)) and os.path.getsize(os.path.join(src, f)) < 200000:
